@@ -538,6 +538,11 @@ Error BaseBuilder::bind(const Label& label) {
   LabelNode* node;
   ASMJIT_PROPAGATE(label_node_of(Out(node), label));
 
+  // A label node that is already part of the node list cannot be linked again.
+  if (ASMJIT_UNLIKELY(node->is_active())) {
+    return report_error(make_error(Error::kLabelAlreadyBound));
+  }
+
   add_node(node);
   return Error::kOk;
 }
@@ -732,6 +737,14 @@ Error BaseBuilder::embed_const_pool(const Label& label, const ConstPool& pool) {
 
   if (!is_label_valid(label)) {
     return report_error(make_error(Error::kInvalidLabel));
+  }
+
+  // Check before aligning so a failed call leaves no AlignNode behind.
+  LabelNode* label_node;
+  ASMJIT_PROPAGATE(label_node_of(Out(label_node), label));
+
+  if (ASMJIT_UNLIKELY(label_node->is_active())) {
+    return report_error(make_error(Error::kLabelAlreadyBound));
   }
 
   ASMJIT_PROPAGATE(align(AlignMode::kData, uint32_t(pool.alignment())));
